@@ -279,3 +279,7 @@ amend("C18", text="Both branches are proved: numpy array and pandas DataFrame (a
 amend("C19", text="fit leaves the constructor parameters alone (columns=None means: detect at every fit).")
 amend("C20", text="build_ts_X_y is verified for real AND integer series (after the repair of two dtype defects found with this machinery: NaN padding and "
                   "exogenous variables of an integer series).")
+amend("C08", text="_mapping_train is proved for the discretizer binner too (three real loops; a set and a dictionary of cell tuples of unbounded symbolic "
+                  "size): every training row gets the number of its cell, numbers 0..len-1 without repetition, one bucket per cell that holds a training row.")
+amend("C10", text="fit_improve is proved for what its caller relies on (the probabilities returned are those of the node's classifier as it is at return); "
+                  "no assumed in-repo step is left in C10.")
